@@ -485,7 +485,7 @@ fn main() {
             TEMPLATES.len()
         );
         // (4) random
-        let n_rand = if args.thorough() { 12_000 } else { 450 };
+        let n_rand = if args.thorough() { 12_000 } else { 250 };
         for _ in 0..n_rand {
             let ti = rng.usize(toks.len());
             let w = random_wrap(&mut rng);
